@@ -4,5 +4,5 @@ set -e
 cd "$(dirname "$0")"
 export CARGO_NET_OFFLINE=true
 (cd lean && lake build HctlModel HctlProofs hctl_driver)
-(cd harness && cargo build --release --offline)
+(cd harness && cargo build --release --offline && cargo build --release --offline --manifest-path /repo/Cargo.toml --target-dir "$PWD/target" --bins)
 echo "setup ok"
